@@ -10,6 +10,7 @@ import (
 	"github.com/relex/gotils/channels"
 	"github.com/relex/gotils/logger"
 	"github.com/relex/slog-agent/base"
+	"github.com/relex/slog-agent/util"
 	"github.com/relex/slog-agent/zz_verif/fakes"
 	"github.com/relex/slog-agent/zz_verif/fsmodel"
 	"github.com/relex/slog-agent/zz_verif/sym"
@@ -379,6 +380,65 @@ func VerifC04_DamagedFileDoesNotBlockRecovery() {
 		sym.Assert(int(m.GaugeValue("persistent_chunks")) == files-droppedButKept, "the file gauge equals the chunk files in the directory that are not counted as dropped")
 		sym.Assert(int(m.GaugeValue("persistent_chunk_bytes")) == bytes, "the byte gauge equals the bytes of the chunk files in the directory")
 	}
+	verifNoDescriptorLeak(fs)
+	sym.Reach("recovered")
+}
+
+// VerifC04_StaleTempFileDoesNotBlockRecovery: a partial temporary file left by
+// a process that died inside the chunk write (before the rename) stays in the
+// queue directory while later generations add chunks: at a later start the
+// temporary file - wherever it sorts among the chunk files (symbolic position),
+// whatever its length - is never taken for a chunk, and every intact chunk is
+// recovered in creation order and forwarded byte-identical.
+//
+//verif:reach recovered
+//verif:native off
+//verif:solver cvc5-int
+func VerifC04_StaleTempFileDoesNotBlockRecovery() {
+	fs := fsmodel.Reset()
+	ids := []string{"0000000000000000001-00000001.ff", "0000000000000000002-00000001.ff", "0000000000000000003-00000001.ff", "0000000000000000004-00000001.ff"}
+	stale := sym.Choice("staleTempPosition", 4) // the chunk whose write was interrupted: it never got its final name
+	var datas [4][]byte
+	for i, id := range ids {
+		datas[i] = sym.BigBytes("data", 1, 3000)
+		if i == stale {
+			k := sym.IntRange("partialLength", 0, 3000)
+			sym.Assume(k <= len(datas[i]))
+			fs.Files[id+util.TempFileSuffix] = append([]byte{}, datas[i][:k]...)
+			continue
+		}
+		fs.Files[id] = append([]byte{}, datas[i]...)
+	}
+	m := fakes.NewMetrics()
+	feeder, man := verifNewFeeder(m, 1<<40)
+	recovered := man.ScanChunks()
+	sym.Assert(len(recovered) == 3, "every intact chunk file is listed, the temporary file is not")
+	for _, c := range recovered {
+		man.OnChunkInputRecovered(c)
+	}
+	for _, c := range recovered {
+		if !feeder.loadToOutput(c) {
+			break
+		}
+	}
+	for i := 0; i < 4; i++ {
+		if i == stale {
+			continue
+		}
+		select {
+		case out := <-feeder.outputChannel:
+			sym.Assert(out.ID == ids[i], "intact chunks are forwarded in creation order; the temporary file is never forwarded")
+			verifSameBytes(out.Data, datas[i], "intact chunk forwarded byte-identical")
+		default:
+			sym.Assert(false, "an intact chunk is not blocked by a stale temporary file")
+		}
+	}
+	select {
+	case <-feeder.outputChannel:
+		sym.Assert(false, "nothing but the intact chunks is forwarded")
+	default:
+	}
+	sym.Assert(m.CounterValue("dropped_chunks_total") == 0, "no intact chunk is dropped")
 	verifNoDescriptorLeak(fs)
 	sym.Reach("recovered")
 }
